@@ -5,7 +5,7 @@ CONSTANTS
   Vals = {0, 1}
   MaxStack = 1
   MaxOps = 6
-  OpKinds = {"set", "push", "cleanup", "mgr_append", "mw", "mw_enter", "mw_close", "spawn"}
+  OpKinds = {"set", "push", "cleanup", "mgr_append", "mw", "mw_enter", "mw_close", "mw_abandon", "spawn"}
   Made0 <- NoneMade
   Bug = "none"
   MwForms <- MwMake
